@@ -40,7 +40,7 @@ REQUIRED = dict(monitors=['sigma-is-sum-of-components', 'component-is-xsec-times
                 classes=['live:fault-before-evaluation', 'cia:he-zero', 'cia:trace-zero', 'cia:trace-zero-in-some-layers', 'contrib:CIA', 'contrib:Rayleigh', 'contrib:SimpleClouds', 'contrib:FlatMie', 'contrib:LeeMie',
                          'contrib:HydrogenIon', 'model:emission', 'early-exit-observed', 'species>=2', 'restricted-grid',
                          'live:starts-at-zero', 'live:write-from-zero', 'live:write-to-zero', 'live:write-rescale', 'chemistry:makefree+file', 'live:background-without-scattering-data',
-                         'live:contribution-yields-nothing-after-having-yielded'])
+                         'live:contribution-yields-nothing-after-having-yielded', 'rayleigh:species-zero-in-some-layers-only'])
 _rec = {'yields': {}, 'sigma': {}}
 CUT = base.CUT
 
@@ -116,6 +116,18 @@ def make_case(rng, hion=None, n_active=None, kind='transmission', makefree=False
         spec['cia_magnitude'] = spec['magnitude']
         spec['cia_seed'] = int(rng.integers(0, 2 ** 31))
         spec['ngauss'] = 4
+        if spec['gases'] and rng.random() < 0.15 and spec['nlayers'] >= 2:
+            # one trace species present in some layers only: an abundance array with one value per layer, some of them
+            # exactly zero (a species that condenses out above a level, a file profile with zeros)
+            j = int(rng.integers(0, len(spec['gases'])))
+            vals = 10 ** rng.uniform(-9, -2.5, spec['nlayers'])
+            z = rng.random(spec['nlayers']) < 0.4
+            if not z.any():
+                z[int(rng.integers(0, spec['nlayers']))] = True
+            if z.all():
+                z[int(rng.integers(0, spec['nlayers']))] = False
+            vals[z] = 0.0
+            spec['gases'][j] = {'kind': 'array', 'mol': spec['gases'][j]['mol'], 'mix': [float(v) for v in vals]}
         if makefree if makefree is not None else rng.random() < 0.12:
             world.make_free_route(rng, spec)
         if world.is_bound(spec):
@@ -199,6 +211,18 @@ def judge_components(ctx, model, contribs, ops, cias, spec, wn):
             need = [pr for pr in cias]
             ctx.check('every-present-species-yields-a-component', all(pr in names for pr in need), contrib=kls,
                       missing=[pr for pr in need if pr not in names])
+        elif kls == 'RayleighContribution':
+            # every species with scattering data that is present in SOME layer (it may be exactly zero in others)
+            allg = list(model.chemistry.activeGases) + list(model.chemistry.inactiveGases)
+            need = []
+            for m in allg:
+                x_ = mix[m] if m in mix else np.array(model.chemistry.get_gas_mix_profile(m))
+                if rayleigh_sigma_from_name(m, wn) is not None and float(np.max(x_)) > 0.0:
+                    need.append(m)
+                    if float(np.min(x_)) == 0.0:
+                        ctx.observe('rayleigh:species-zero-in-some-layers-only')
+            ctx.check('every-present-species-yields-a-component', all(m in names for m in need), contrib=kls,
+                      missing=[m for m in need if m not in names])
         for nm, arr in comps:
             if kls == 'AbsorptionContribution':
                 op = ops[nm]
